@@ -39,8 +39,8 @@ class LoopScenario:
     the loop future, loop_bound unrollings of any MIR loop per activation."""
 
     def __init__(self, functions, enums, strategy='RestartOnly', stream=False, max_msgs=3, max_pending=1, max_polls=8,
-                 panics=False, max_items=2, loop_bound=8, has_timeout=None):
-        self.eng = Engine(functions, enums=enums, loop_bound=loop_bound)
+                 panics=False, max_items=2, loop_bound=8, has_timeout=None, max_paths=200000, max_seconds=900):
+        self.eng = Engine(functions, enums=enums, loop_bound=loop_bound, max_paths=max_paths)
         self.strategy = strategy
         self.stream = stream
         self.max_msgs = max_msgs
@@ -84,10 +84,16 @@ class LoopScenario:
         return v, z3.And(v >= lo, v <= hi)
 
     def m_inline_by_name(self, name, nargs):
-        fn = self.eng.find_one(name, nargs=nargs) if not name.startswith('::') else None
+        try:
+            fn = self.eng.find_one(name, nargs=nargs) if not name.startswith('::') else None
+        except Unsupported:
+            fn = None       # (a tree that no longer has a helper of that name: the generic helper inlining takes over)
 
         def h(e, st, fr, t, args):
-            f = fn or e.find_one(name, nargs=nargs)
+            try:
+                f = fn or e.find_one(name, nargs=nargs)
+            except Unsupported:
+                return NotImplemented
             e.push_call(st, f, args, ret_dest=t.dest, ret_bb=t.target, unwind_bb=t.unwind)
             return None
         return h
